@@ -68,10 +68,12 @@ static void set_id(ObjectHeaderBase * o, uint64_t id) {
     if (auto * h = dynamic_cast<ObjectHeader *>(o)) h->objectTimeStamp = id;
     else if (auto * h2 = dynamic_cast<ObjectHeader2 *>(o)) h2->objectTimeStamp = id;
 }
+// identity of a delivered object = its time stamp; 0 is reserved for nullptr in the spec
 static long get_id(ObjectHeaderBase * o) {
-    if (auto * h = dynamic_cast<ObjectHeader *>(o)) return (long) h->objectTimeStamp;
-    if (auto * h2 = dynamic_cast<ObjectHeader2 *>(o)) return (long) h2->objectTimeStamp;
-    return 999;
+    long id = 999;
+    if (auto * h = dynamic_cast<ObjectHeader *>(o)) id = (long) h->objectTimeStamp;
+    else if (auto * h2 = dynamic_cast<ObjectHeader2 *>(o)) id = (long) h2->objectTimeStamp;
+    return id == 0 ? 777 : id;
 }
 
 static void build(Scenario & s, const std::string & dir, bool writeFile) {
@@ -133,6 +135,7 @@ static std::string describe(Scenario & s) {
     // descriptors: one per signature occurrence
     std::vector<std::string> objs;
     std::vector<long> expected;
+    bool ended = false;        // an object size below the base header ends the session
     long total = (long) s.stream.size();
     for (long x = 0; x + 4 <= total; x++) {
         if (memcmp(s.stream.data() + x, "LOBJ", 4) != 0) continue;
@@ -140,6 +143,7 @@ static std::string describe(Scenario & s) {
         JObj d;
         d.put("pos", x).put("osz", (long) osz);
         ObjectHeaderBase * obj = (x + 16 <= total) ? File::createObject((ObjectType) type) : nullptr;
+        if (osz < 16) ended = true;
         d.putb("known", obj != nullptr);
         d.putb("t115", type == 115);
         long id = 0, calc = 0;
@@ -160,7 +164,7 @@ static std::string describe(Scenario & s) {
                 return "[" + jstr(std::string(1, p.first)) + "," + jint(p.second) + "]"; });
             id = get_id(obj);
             bool complete = uf.good() && (x + (long) osz <= total);
-            if (complete) expected.push_back(id);
+            if (complete && !ended) expected.push_back(id);
             delete obj;
         }
         d.put("id", id).put("calc", calc).raw("ops", ops);
@@ -207,6 +211,7 @@ static std::string project(Session & S) {
     JObj ju;
     ju.putb("abort", u.m_abort).put("g", (long) u.m_tellg).put("p", (long) u.m_tellp).put("gc", (long) u.m_gcount);
     ju.put("end", inf64(u.m_fileSize)).putb("good", u.m_rdstate == std::ios_base::goodbit);
+    ju.put("dem", (long) u.m_demand);
     ju.raw("data", jarr(u.m_data.begin(), u.m_data.end(), [](const std::shared_ptr<LogContainer> & c) {
         return "[" + jint((long) c->filePosition) + "," + jint((long) c->uncompressedFileSize) + "]"; }));
     JObj jq;
@@ -347,7 +352,7 @@ int main(int argc, char ** argv) {
                 start_session(S, sc);
                 if (tf) fprintf(tf, "{\"e\":\"Reset\",\"scen\":\"%s\",\"pt\":%s}\n", sc.name.c_str(), project(S).c_str());
                 // PCT-like: random priorities, changed at a few random points
-                long budget = 2000000;
+                long budget = getenv("VERIF_BUDGET") ? atol(getenv("VERIF_BUDGET")) : 2000000;
                 std::string verdict;
                 std::vector<int> sched;
                 for (;;) {
